@@ -131,9 +131,67 @@ func (e *exec) late() {
 	n.Close()
 }
 
+// readfault: custom and UDP broadcast endpoints: a read failure at the k-th read closes the
+// channel with the cause; the endpoint hands its transport to a fresh channel.
+func (e *exec) readfault() {
+	p := e.p
+	errs := []error{io.EOF, errReset, errCustom}
+	want := errs[vmc.Choose(3, "read-error-kind")]
+	k := 1 + vmc.Choose(3, "fail-at-read")
+	n := &gomavlib.Node{Dialect: sx.Dialect(), OutVersion: gomavlib.V2, OutSystemID: 10, HeartbeatDisable: true}
+	var frames [][]byte
+	for r := 1; r < k; r++ {
+		frames = append(frames, frameHB(byte(r), 80))
+	}
+	if p.Kind == "custom" {
+		c := &vnet.FakeConn{Name: "custom", In: frames, InErr: want, InErrOnce: true}
+		n.Endpoints = []gomavlib.EndpointConf{gomavlib.EndpointCustom{ReadWriteCloser: c}}
+	} else {
+		pc := &vnet.FakePacketConn{Name: "bc", In: frames, InErr: want}
+		vnet.ListenPacketHook = func(network, address string) (net.PacketConn, error) { return pc, nil }
+		n.Endpoints = []gomavlib.EndpointConf{gomavlib.EndpointUDPBroadcast{BroadcastAddress: "192.168.7.255:5600", LocalAddress: "192.168.7.1:5600"}}
+	}
+	if err := n.Initialize(); err != nil {
+		e.fail("Initialize: %v", err)
+		return
+	}
+	vmc.GoApp("consumer", func() { e.consume(n) })
+	sleepUntil(3 * time.Second)
+	var first *gomavlib.Channel
+	nframes, closed := 0, false
+	for _, ev := range e.evs {
+		switch ev.what {
+		case "open":
+			if first == nil {
+				first = ev.ch
+			}
+		case "frame":
+			if ev.ch == first {
+				nframes++
+			}
+		case "close":
+			if ev.ch == first {
+				closed = true
+				if ev.err != want {
+					e.fail("close event carries %v, the transport failed with %v", ev.err, want)
+				}
+			}
+		}
+	}
+	if !closed {
+		e.fail("transport read failed with %v at read %d but no close event for the channel (events %v)", want, k, e.log.Events)
+	}
+	if nframes != k-1 {
+		e.fail("%d of %d frames before the failure delivered", nframes, k-1)
+	}
+	n.Close()
+}
+
 func (e *exec) Body() {
 	sx.ResetGlobals()
 	switch e.p.Scen {
+	case "readfault":
+		e.readfault()
 	case "late":
 		e.late()
 	case "reconn":
@@ -589,6 +647,9 @@ func variants(thorough bool) []sx.Variant {
 	for _, k := range []string{"serial", "tcpclient", "udpclient"} {
 		ps = append(ps, params{Scen: "late", Kind: k})
 	}
+	for _, k := range []string{"custom", "broadcast"} {
+		ps = append(ps, params{Scen: "readfault", Kind: k})
+	}
 	for _, k := range []string{"tcpserver", "udpserver"} {
 		ps = append(ps, params{Scen: "server", Kind: k})
 	}
@@ -601,7 +662,7 @@ func variants(thorough bool) []sx.Variant {
 		p := p
 		bound := 0
 		switch p.Scen {
-		case "idle", "late":
+		case "idle", "late", "readfault":
 			bound = 2
 		case "server":
 			bound = 1
